@@ -138,6 +138,15 @@ LINTERS = [  # command, file name, content key, comment style, rule prefix of in
 ]
 
 
+def _parses(text: str) -> bool:
+    import ast
+    try:
+        ast.parse(text)
+        return True
+    except (SyntaxError, ValueError):
+        return False
+
+
 def linter_impl(args):
     idx, cmd, fname, text, variants, root = args[:6]
     proj = Path(root) / f"l{idx}"
@@ -232,6 +241,8 @@ def run(tier: str, seed: int, st: core.ProofStatus) -> core.Result:
                         pad = max(12, 0)
                         s = s[:pad] + [f"{cm} thailint: ignore-file[{named}]"] + s[pad:] if len(s) > pad else s + [f"{cm} thailint: ignore-file[{named}]"]
                         shift, scope = (lambda ln, P=pad: ln + (1 if ln > P else 0)), set()
+                    if key == "py" and not _parses("\n".join(s)):
+                        continue      # the comment landed inside a continued line or a bracketed expression: not a placement a user could make
                     variants.append((f"{form}:{rule}@{line}", "\n".join(s)))
                     plan.append({"form": form, "rule": rule, "line": line, "named": named, "shift": shift, "scope": scope})
             work2.append((1000 + li, cmd, fname, text, variants, str(root), cfg))
